@@ -113,6 +113,12 @@ def run_case(rng, idx, tier, lane, ctx):
             continue
         counters["deterministic_solutions"] += 1
         drift = np.abs(sol.sum(axis=1) - sum(x0f))
+        if np.max(drift) > tol and np.min(sol) < -1e-6 * (1 + sum(x0f)):
+            # a rate that does not vanish with its origin state (constant, p/(1+X), exp) drives that state below zero in the ODE; beyond
+            # that point saturating rates have poles (X = -1/q) and the solution blows up in finite time: not a conservation question
+            counters["det_inconclusive"] += 1
+            counters["det_left_positive_orthant_and_lost_accuracy"] = counters.get("det_left_positive_orthant_and_lost_accuracy", 0) + 1
+            continue
         if np.max(drift) > tol:
             bad("state sum of a deterministic solution of a closed model drifts beyond solver tolerance", solver=name,
                 max_drift=float(np.max(drift)), tol=tol, sums=sol.sum(axis=1).tolist())
